@@ -11,9 +11,9 @@
 EXTENDS Cldr
 
 CONSTANT Mode
-VARIABLES l, s, r, ph, name
+VARIABLES cl, cs, cr, ph, name
 
-vars == <<l, s, r, ph, name>>
+vars == <<cl, cs, cr, ph, name>>
 
 LangsOfKeys == { k[1] : k \in KeySet }
 ScriptsKeyedWith(x) == { k[2] : k \in { q \in KeySet : q[1] = x /\ q[2] # None } }
@@ -21,18 +21,18 @@ RegionsKeyedWith(x) == { k[3] : k \in { q \in KeySet : q[1] = x /\ q[3] # None }
 SFor(x) == {None, "Latn", "Arab", "Zzzz", "Qaaa"} \cup ScriptsKeyedWith(x)
 RFor(x) == {None, "US", "IN", "ZZ", "XK", "001", "999"} \cup RegionsKeyedWith(x)
 
-InitKeys == \E k \in KeySet : l = k[1] /\ s = k[2] /\ r = k[3] /\ ph = 1 /\ name = ""
-InitClosure == l \in LangsOfKeys \cup {"zz", "qqq", "abcdefgh"} /\ s = None /\ r = None /\ ph = 0 /\ name = ""
-NextClosure == /\ ph = 0 /\ ph' = 1 /\ UNCHANGED <<l, name>>
-               /\ s' \in SFor(l) /\ r' \in RFor(l)
+InitKeys == \E k \in KeySet : cl = k[1] /\ cs = k[2] /\ cr = k[3] /\ ph = 1 /\ name = ""
+InitClosure == cl \in LangsOfKeys \cup {"zz", "qqq", "abcdefgh"} /\ cs = None /\ cr = None /\ ph = 0 /\ name = ""
+NextClosure == /\ ph = 0 /\ ph' = 1 /\ UNCHANGED <<cl, name>>
+               /\ cs' \in SFor(cl) /\ cr' \in RFor(cl)
 
 (* direction: the CLDR locales themselves, then language x script probes    *)
 InitDir == \/ \E p \in LayoutLocales :
-                 LET t == Triple(p[1]) IN l = t[1] /\ s = t[2] /\ r = t[3] /\ ph = 1 /\ name = p[1]
-           \/ /\ l \in D.rtlLangs \cup {"en", "zh", "mn", "und", "zz"} /\ ph = 0 /\ s = None /\ r = None /\ name = ""
-NextDir == /\ ph = 0 /\ ph' = 1 /\ UNCHANGED <<l, name>>
-           /\ s' \in ListedScripts \cup {None, "Zzzz", "Thaa", "Hebr"}
-           /\ r' \in {None, "US", "PK", "AF", "CN", "ZZ"}
+                 LET t == Triple(p[1]) IN cl = t[1] /\ cs = t[2] /\ cr = t[3] /\ ph = 1 /\ name = p[1]
+           \/ /\ cl \in D.rtlLangs \cup {"en", "zh", "mn", "und", "zz"} /\ ph = 0 /\ cs = None /\ cr = None /\ name = ""
+NextDir == /\ ph = 0 /\ ph' = 1 /\ UNCHANGED <<cl, name>>
+           /\ cs' \in ListedScripts \cup {None, "Zzzz", "Thaa", "Hebr"}
+           /\ cr' \in {None, "US", "PK", "AF", "CN", "ZZ"}
 
 Init == CASE Mode = "keys" -> InitKeys [] Mode = "closure" -> InitClosure [] Mode = "dir" -> InitDir
 Next == CASE Mode = "keys" -> FALSE /\ UNCHANGED vars
@@ -47,24 +47,24 @@ ASSUME DataOK
 
 (* C06: every key (but bare und) maximizes to its value                     *)
 KeyMaximizesToValue ==
-    (Mode = "keys" /\ <<l, s, r>> # <<UndL, None, None>>) => Maximize(T, l, s, r) = <<TRUE, T[<<l, s, r>>]>>
+    (Mode = "keys" /\ <<cl, cs, cr>> # <<UndL, None, None>>) => Maximize(T, cl, cs, cr) = <<TRUE, T[<<cl, cs, cr>>]>>
 (* C07 / C08 on real data                                                   *)
-Laws == ph = 1 => /\ LawsMax(T, l, s, r, FALSE) /\ LawsMax(T, l, s, r, TRUE)
-                  /\ LawsMin(T, l, s, r, FALSE) /\ NeverLonger(T, l, s, r, FALSE)
+Laws == ph = 1 => /\ LawsMax(T, cl, cs, cr, FALSE) /\ LawsMax(T, cl, cs, cr, TRUE)
+                  /\ LawsMin(T, cl, cs, cr, FALSE) /\ NeverLonger(T, cl, cs, cr, FALSE)
 (* C14: the specification's direction is one the property allows, with and  *)
 (* without likely subtags; on CLDR locales the clauses agree with CLDR      *)
 Cldr1 == IF name = "" THEN <<>> ELSE << (CHOOSE p \in LayoutLocales : p[1] = name)[2] >>
 DirOK == (Mode = "dir" /\ ph = 1) =>
-    /\ Direction(T, D, l, s, r, TRUE) \in AllowedDir(l, s, r, TRUE, Cldr1)
-    /\ Direction(T, D, l, s, r, FALSE) \in AllowedDir(l, s, r, FALSE, Cldr1)
-    /\ name # "" => /\ Direction(T, D, l, s, r, TRUE) = Cldr1[1]
-                    /\ (s \in ListedScripts \/ l \notin D.rtlLangs) => AllowedDir(l, s, r, FALSE, Cldr1) = {Cldr1[1]}
+    /\ Direction(T, D, cl, cs, cr, TRUE) \in AllowedDir(cl, cs, cr, TRUE, Cldr1)
+    /\ Direction(T, D, cl, cs, cr, FALSE) \in AllowedDir(cl, cs, cr, FALSE, Cldr1)
+    /\ name # "" => /\ Direction(T, D, cl, cs, cr, TRUE) = Cldr1[1]
+                    /\ (cs \in ListedScripts \/ cl \notin D.rtlLangs) => AllowedDir(cl, cs, cr, FALSE, Cldr1) = {Cldr1[1]}
 
-IdText == IF name # "" THEN name ELSE KeyText(<<l, s, r>>)
-LikelyCase == [k |-> "likely", l |-> l, s |-> s, r |-> r,
-               max |-> SetToSeq(AllowedMax(T, l, s, r)), min |-> SetToSeq(AllowedMin(T, l, s, r))]
-DirCase == [k |-> "dir", id |-> IdText, on |-> SetToSeq(AllowedDir(l, s, r, TRUE, Cldr1)),
-            off |-> SetToSeq(AllowedDir(l, s, r, FALSE, Cldr1)),
+IdText == IF name # "" THEN name ELSE KeyText(<<cl, cs, cr>>)
+LikelyCase == [k |-> "likely", l |-> cl, s |-> cs, r |-> cr,
+               max |-> SetToSeq(AllowedMax(T, cl, cs, cr)), min |-> SetToSeq(AllowedMin(T, cl, cs, cr))]
+DirCase == [k |-> "dir", id |-> IdText, on |-> SetToSeq(AllowedDir(cl, cs, cr, TRUE, Cldr1)),
+            off |-> SetToSeq(AllowedDir(cl, cs, cr, FALSE, Cldr1)),
             why |-> IF name # "" THEN "cldr-layout-locale" ELSE "probe"]
 EmitCase == ph = 1 => PrintT("CASE " \o ToJson(IF Mode = "dir" THEN DirCase ELSE LikelyCase))
 =============================================================================
